@@ -18,7 +18,7 @@ func (o vCountingObj) MarshalLogObject(enc zapcore.ObjectEncoder) error {
 // A shared AtomicLevel changed between calls is honoured by every derived logger on its next call;
 // a disabled entry causes no marshaling, no hook call and no sink activity; reported levels agree.
 //
-//verif: prop=C05 bounds="JSON IO core behind an AtomicLevel; 3 steps, each SetLevel(any int8) or a log call (Logger.Log/Check, Sugared Logw/Logf, at any level below DPanic) through the root, a With child, a Named child or a sugared child; entry hook and a counting marshaler field"
+//verif: prop=C05 bounds="JSON IO core behind an AtomicLevel; 3 steps, each SetLevel(any int8), UnmarshalText(a level name) or a log call (Logger.Log/Check, Sugared Logw/Logf, at any level below DPanic) through the root, a With child, a Named child or a sugared child; entry hook and a counting marshaler field"
 func VC05Atomic() {
 	al := NewAtomicLevelAt(zapcore.Level(vrt.Int8("initial")))
 	sink := &vLineSink{}
@@ -31,11 +31,21 @@ func VC05Atomic() {
 	cur := al.Level()
 	wantLines := 0
 	for step := 0; step < 3; step++ {
-		if vrt.Choice(vName("op", step), 2) == 0 {
+		op := vrt.Choice(vName("op", step), 3)
+		if op == 0 {
 			nl := zapcore.Level(vrt.Int8(vName("set", step)))
 			al.SetLevel(nl)
 			cur = nl
 			vrt.Assert("atomic-level-reads-back", al.Level() == nl)
+			continue
+		}
+		if op == 2 {
+			// the level changed through its text form (config reload, JSON/YAML/flag): same shared level
+			k := vrt.Choice(vName("text", step), 3)
+			text := []string{"debug", "WARN", "error"}[k]
+			vrt.Assert("text-form-accepted", al.UnmarshalText([]byte(text)) == nil)
+			cur = []zapcore.Level{DebugLevel, WarnLevel, ErrorLevel}[k]
+			vrt.Assert("atomic-level-reads-back", al.Level() == cur)
 			continue
 		}
 		l := zapcore.Level(vrt.Int8(vName("lvl", step)))
